@@ -375,10 +375,22 @@ def cases(rng, n, kinds=None):
         om = 0.0 if rng.random() < 0.4 else r4(rng, 0.0, 0.95 * g)
         out.append({'kind': 'sedov', 'params': {'geometry': g, 'gamma': r4(rng, 1.2, 2.2), 'rho0': r4(rng, 0.3, 3), 'eblast': r4(rng, 0.3, 2), 'omega': om},
                     't': r4(rng, 0.2, 1.5), 'rmax': 3.0})
+        # small shock radius with a steep ambient profile: r2^(2 omega) far below (gamma-1)/(gamma+1), where a wrong power of r2 in the
+        # post-shock density turns the compression into a density drop
+        g = rng.choice([1, 2, 3])
+        out.append({'kind': 'sedov', 'params': {'geometry': g, 'gamma': r4(rng, 1.2, 2.2), 'rho0': r4(rng, 0.3, 3), 'eblast': r4(rng, 0.05, 0.5),
+                                                'omega': r4(rng, 0.5, 0.9) * g}, 't': r4(rng, 0.01, 0.08), 'rmax': 0.6})
         for cls in ('IGEOS_Solver', 'GenEOS_Solver'):
             if cls == 'GenEOS_Solver' and rng.random() < 0.5:
                 continue
             out.append({'kind': 'riemann', 'class': cls, 'params': riemann_params(rng), 't': r4(rng, 0.05, 0.3)})
+        # identical thermodynamic states on the two sides, opposite velocities (colliding / separating streams): the two waves can then be told
+        # apart by the velocity alone
+        for cls in ('IGEOS_Solver', 'GenEOS_Solver'):
+            P = riemann_params(rng)
+            v = r4(rng, 0.3, 1.2) * (1 if rng.random() < 0.7 else -0.4)
+            P.update({'rr': P['rl'], 'pr': P['pl'], 'gr': P['gl'], 'ul': v, 'ur': -v})
+            out.append({'kind': 'riemann', 'class': cls, 'params': P, 't': r4(rng, 0.05, 0.3), 'symmetric': True})
         for _k in range(3):
             out.append({'kind': 'riemann', 'class': 'IGEOS_Solver', 'params': threshold_problem(rng), 't': r4(rng, 0.05, 0.2), 'near_threshold': True})
         D = r4(rng, 0.3, 2)
